@@ -110,12 +110,16 @@ def docException (cv : Conv) (v : V) : Bool :=
   | .time => valueInGroup .string v
   | _ => false
 
-/-- a float / Decimal / complex whose value is 0 or 1 (via `exactIntF/D`, not via the converter's own test) -/
-def isZeroOneValue : V → Bool
-  | .float _ f => exactIntF f == some 0 || exactIntF f == some 1
-  | .dec _ d => exactIntD d == some 0 || exactIntD d == some 1
-  | .complex re im => exactIntF im == some 0 && (exactIntF re == some 0 || exactIntF re == some 1)
+/-- a float / Decimal / complex whose value is the integer `n` (via `exactIntF/D`, not via the converter's own test) -/
+def numValueIs (v : V) (n : Int) : Bool :=
+  match v with
+  | .float _ f => exactIntF f == some n
+  | .dec _ d => exactIntD d == some n
+  | .complex re im => exactIntF im == some 0 && exactIntF re == some n
   | _ => false
+
+/-- a float / Decimal / complex whose value is 0 or 1 -/
+def isZeroOneValue (v : V) : Bool := numValueIs v 0 || numValueIs v 1
 
 /-- what the unchanged code admits under no_explicit_cast beyond the property's table (each one a listed finding,
 findings.d/C12.json; the test suite expects all of them) -/
@@ -167,11 +171,14 @@ def isUuid : V → Bool | .uuid _ _ => true | _ => false
 def isNumber (v : V) : Bool :=
   isInst v .int || isInst v .float || isInst v .decimal || (match v with | .complex _ _ => true | _ => false)
 
-/-- `data == n` (n ∈ {0,1}) holds only for a bool, the int `n`, or a float / Decimal / complex of value 0 or 1 -/
-theorem eqSmall_spec (v : V) (n : Int) (hn : n = 0 ∨ n = 1) (h : eqSmall v n = .ok true) :
-    (∃ b, v = .bool b) ∨ (∃ c, v = .int c n) ∨ isZeroOneValue v = true := by
+/-- `data == n` holds only for a bool, the int `n`, or a float / Decimal / complex of value `n` -/
+theorem eqSmall_spec (v : V) (n : Int) (h : eqSmall v n = .ok true) :
+    (∃ b, v = .bool b ∧ (if b then 1 else 0) = n) ∨ (∃ c, v = .int c n) ∨ numValueIs v n = true := by
   cases v <;> simp [eqSmall, num?] at h
-  case bool b => exact Or.inl ⟨b, rfl⟩
+  case bool b =>
+    left
+    simp [NumV.eq, Q.eq, Q.scaled] at h
+    exact ⟨b, rfl, h⟩
   case int c i =>
     right; left
     simp [NumV.eq, Q.eq, Q.scaled] at h
@@ -180,15 +187,13 @@ theorem eqSmall_spec (v : V) (n : Int) (hn : n = 0 ∨ n = 1) (h : eqSmall v n =
     right; right
     cases f <;> simp [NumV.eq] at h
     rename_i m e
-    have := Qeq_two m e n h
-    rcases hn with rfl | rfl <;> simp [isZeroOneValue, this]
+    simp [numValueIs, Qeq_two m e n h]
   case dec c d =>
     right; right
     cases d with
     | fin s co e =>
       simp [NumV.eq] at h
-      have := Qeq_ten s co e n h
-      rcases hn with rfl | rfl <;> simp [isZeroOneValue, this]
+      simp [numValueIs, Qeq_ten s co e n h]
     | inf s => simp [NumV.eq] at h
     | nan s => cases s <;> simp [NumV.eq] at h
   case complex re im =>
@@ -202,8 +207,7 @@ theorem eqSmall_spec (v : V) (n : Int) (hn : n = 0 ∨ n = 1) (h : eqSmall v n =
     cases re <;> simp at hre
     rename_i m e
     simp [NumV.eq] at hre
-    have := Qeq_two m e n hre
-    rcases hn with rfl | rfl <;> simp [isZeroOneValue, this, him]
+    simp [numValueIs, Qeq_two m e n hre, him]
 
 theorem isInstT_isInst (v : V) (b : Base) (c : Nat) (h : isInstT v (.cls b c) = true) : isInst v b = true := by
   cases c with
